@@ -437,7 +437,7 @@ theorem ev_quiesce_ok (s : St) (m : EvSt) (B : List Nat) (hR : RelEv s m) (hq : 
             cases hemp : (m.added.filter (fun r => !m.relInv.contains r)).isEmpty
             · rfl
             · rw [List.isEmpty_iff] at hemp; rw [hemp] at hmem; cases hmem
-          simp [hne]
+          rw [hne]; simp
       · have hmk := hcfg hcfgd
         rw [← k5.2.2] at hve
         simp [hmk, hkp, hve]
@@ -456,5 +456,247 @@ theorem ev_quiesce_ok (s : St) (m : EvSt) (B : List Nat) (hR : RelEv s m) (hq : 
     simp only [e1, e2, e3, e4]; rfl
   simp only [monEventually]
   rw [if_pos hall]
+
+theorem ev_sim_step (s : St) (e : Ev) (s' : St) (m : EvSt) (hR : RelEv s m) (hs : step s e = some s') :
+    match Ev.obs e with
+    | none => RelEv s' m
+    | some o => ∃ m', monEventually.step m o = some m' ∧ RelEv s' m' := by
+  have hR0 := hR
+  obtain ⟨hi, hx, ht, hrt, ⟨mo, hRO, hsub⟩, herr, hlat, hinval, hret, hsnap, hcfg, hctx, hcc, hadd, hhook, hconv⟩ := hR
+  have hi' := step_inv s e s' hi hs
+  have hx' := idx_step s s' e hx hs
+  have ht' := step_thinv s s' e ht hs
+  have hrt' := step_relTh s s' e ht hrt hs
+  have c_once : (∀ j k v er, e ≠ .leave j k v true er) → (∀ i k seen, e ≠ .cb (.rel i k seen)) →
+      ∃ mo', RelOnce s' mo' ∧ UnSub m.unrel mo' :=
+    fun h1 h2 => ⟨mo, once_other s s' e mo hRO hs h1 h2, hsub⟩
+  have c_err : ErrOk s' m.unrel := errOk_step s s' e _ _ hi hx herr hs (fun _ _ h => Or.inl h)
+  have c_lat : (∀ j k v hh er, e ≠ .leave j k v hh er) → LatestOk s' m.latest :=
+    fun h1 => latest_other s s' e hi _ hlat hs h1
+  have c_inval : InvalOk s' m.inval := invalOk_step s s' e _ _ hi hx hinval hs (fun _ h => Or.inl h)
+  have c_ret : RetOk s' m.returned := retOk_step s s' e _ _ hx hret hs (fun _ h => Or.inl h)
+  have c_snap : (∀ a c cl, e ≠ .invSetCtx a c cl) → SnapOk s' m.ctxSnap :=
+    fun h1 => snapOk_step s s' e _ _ hi hx hsnap hs (Or.inl ⟨rfl, h1⟩)
+  have c_cfg : (∀ k c t, e ≠ .cfg k c t) → CfgOk s' m.keep :=
+    fun h1 => cfgOk_step s s' e _ _ hcfg hs (Or.inr ⟨h1, rfl⟩)
+  have c_ctx : (∀ k c t, e ≠ .cfg k c t) → (∀ a c cl, e ≠ .invSetCtx a c cl) → CtxVal s' m.ctx :=
+    fun h1 h2 => ctxVal_other s s' e _ hctx hs h1 h2
+  have c_cc : (∀ a c cl, e ≠ .invSetCtx a c cl) → CtxOk s' m.ctxCalls :=
+    fun h1 => ctxOk_step s s' e _ _ hcc hs (fun _ h _ => h) (fun a c cl he => absurd he (h1 a c cl))
+  have c_add : (∀ a, e ≠ .retAddRef a) → AddedOk s' m.added :=
+    fun h1 => addedOk_step s s' e _ _ hadd hs (fun _ h => h) (fun a he => absurd he (h1 a))
+  have c_hook : (∀ a, e ≠ .invHook a) → HookOk s' m.hooks :=
+    fun h1 => hookOk_step s s' e _ _ hhook hs (fun h => h) (fun a he => absurd he (h1 a))
+  have c_conv : RelConv s' m.relInv := relConv_step s s' e _ _ hconv hs (fun _ h => Or.inl h)
+  have same : (∀ j k v hh er, e ≠ .leave j k v hh er) → (∀ i k seen, e ≠ .cb (.rel i k seen)) →
+      (∀ a c cl, e ≠ .invSetCtx a c cl) → (∀ k c t, e ≠ .cfg k c t) → (∀ a, e ≠ .retAddRef a) →
+      (∀ a, e ≠ .invHook a) → RelEv s' m := by
+    intro n1 n2 n3 n4 n5 n6
+    exact ⟨hi', hx', ht', hrt', c_once (fun j k v er => n1 j k v true er) n2, c_err, c_lat n1, c_inval, c_ret,
+      c_snap n3, c_cfg n4, c_ctx n4 n3, c_cc n3, c_add n5, c_hook n6, c_conv⟩
+  cases e with
+  | leave j k v hh er =>
+    refine ⟨{ m with latest := some k, returned := k :: m.returned
+                     unrel := if hh then (k, er) :: m.unrel else m.unrel }, by simp [Ev.obs, monEventually], ?_⟩
+    have h1 := once_sim_step s _ s' mo hRO hs
+    refine ⟨hi', hx', ht', hrt', ?_, ?_, latest_leave s s' hi m.latest j k v hh er hs, c_inval, ?_,
+      c_snap (by simp), c_cfg (by simp), c_ctx (by simp) (by simp), c_cc (by simp), c_add (by simp),
+      c_hook (by simp), c_conv⟩
+    · cases hh with
+      | false =>
+        obtain ⟨m', hm', hR'⟩ := h1; cases hm'
+        exact ⟨mo, hR', hsub⟩
+      | true =>
+        obtain ⟨m', hm', hR'⟩ := h1; cases hm'
+        refine ⟨k :: mo, hR', ?_⟩
+        intro p hp
+        simp only [if_true, List.mem_cons] at hp
+        rcases hp with rfl | hp
+        · exact List.mem_cons_self
+        · exact List.mem_cons_of_mem _ (hsub p hp)
+    · refine errOk_step s s' _ _ _ hi hx herr hs ?_
+      intro k' er' hp
+      cases hh with
+      | false => exact Or.inl hp
+      | true =>
+        simp only [if_true, List.mem_cons] at hp
+        rcases hp with hp | hp
+        · cases hp; exact Or.inr ⟨j, v, true, rfl⟩
+        · exact Or.inl hp
+    · refine retOk_step s s' _ _ _ hx hret hs ?_
+      intro k' hk'
+      simp only [List.mem_cons] at hk'
+      rcases hk' with rfl | hk'
+      · exact Or.inr ⟨j, v, hh, er, rfl⟩
+      · exact Or.inl hk'
+  | cb it =>
+    cases it with
+    | rel i k seen =>
+      refine ⟨{ m with unrel := m.unrel.filter (·.1 != k) }, by simp [Ev.obs, monEventually], ?_⟩
+      have h1 := once_sim_step s _ s' mo hRO hs
+      obtain ⟨m', hm', hR'⟩ := h1
+      have hm2 : (if mo.contains k then some (mo.erase k) else none) = some m' := hm'
+      split at hm2 <;> try cases hm2
+      refine ⟨hi', hx', ht', hrt', ⟨mo.erase k, hR', ?_⟩, ?_, c_lat (by simp), c_inval, c_ret,
+        c_snap (by simp), c_cfg (by simp), c_ctx (by simp) (by simp), c_cc (by simp), c_add (by simp),
+        c_hook (by simp), c_conv⟩
+      · intro p hp
+        simp only [List.mem_filter] at hp
+        have hne : p.1 ≠ k := by simpa using hp.2
+        exact (List.mem_erase_of_ne hne).mpr (hsub p hp.1)
+      · refine errOk_step s s' _ _ _ hi hx herr hs ?_
+        intro k' er' hp
+        simp only [List.mem_filter] at hp
+        exact Or.inl hp.1
+    | refcb r vis res v er =>
+      cases vis with
+      | false => exact same (by simp) (by simp) (by simp) (by simp) (by simp) (by simp)
+      | true => exact ⟨m, rfl, same (by simp) (by simp) (by simp) (by simp) (by simp) (by simp)⟩
+  | cfg kp c t =>
+    refine ⟨{ m with keep := kp, ctx := some c }, by simp [Ev.obs, monEventually], ?_⟩
+    exact ⟨hi', hx', ht', hrt', c_once (by simp) (by simp), c_err, c_lat (by simp), c_inval, c_ret,
+      c_snap (by simp), cfgOk_step s s' _ _ _ hcfg hs (Or.inl ⟨kp, c, t, rfl, rfl⟩), ctxVal_cfg s s' hi kp c t hs,
+      c_cc (by simp), c_add (by simp), c_hook (by simp), c_conv⟩
+  | retAddRef a =>
+    refine ⟨{ m with added := a :: m.added }, by simp [Ev.obs, monEventually], ?_⟩
+    exact ⟨hi', hx', ht', hrt', c_once (by simp) (by simp), c_err, c_lat (by simp), c_inval, c_ret,
+      c_snap (by simp), c_cfg (by simp), c_ctx (by simp) (by simp), c_cc (by simp),
+      addedOk_step s s' _ _ _ hadd hs (fun _ h => List.mem_cons_of_mem _ h)
+        (by intro a' he; cases he; exact List.mem_cons_self),
+      c_hook (by simp), c_conv⟩
+  | invRelease b r =>
+    refine ⟨{ m with relInv := r :: m.relInv }, by simp [Ev.obs, monEventually], ?_⟩
+    exact ⟨hi', hx', ht', hrt', c_once (by simp) (by simp), c_err, c_lat (by simp), c_inval, c_ret,
+      c_snap (by simp), c_cfg (by simp), c_ctx (by simp) (by simp), c_cc (by simp), c_add (by simp),
+      c_hook (by simp),
+      relConv_step s s' _ _ _ hconv hs (by
+        intro r' hr'
+        simp only [List.mem_cons] at hr'
+        rcases hr' with rfl | hr'
+        · exact Or.inr ⟨b, rfl⟩
+        · exact Or.inl hr')⟩
+  | envReleased k =>
+    refine ⟨{ m with inval := k :: m.inval }, by simp [Ev.obs, monEventually], ?_⟩
+    exact ⟨hi', hx', ht', hrt', c_once (by simp) (by simp), c_err, c_lat (by simp),
+      invalOk_step s s' _ _ _ hi hx hinval hs (by
+        intro k' hk'
+        simp only [List.mem_cons] at hk'
+        rcases hk' with rfl | hk'
+        · exact Or.inr rfl
+        · exact Or.inl hk'),
+      c_ret, c_snap (by simp), c_cfg (by simp), c_ctx (by simp) (by simp), c_cc (by simp), c_add (by simp),
+      c_hook (by simp), c_conv⟩
+  | invSetCtx a c cl =>
+    refine ⟨{ m with ctxCalls := a :: m.ctxCalls, ctx := if m.ctxCalls.isEmpty then some c else none
+                     ctxSnap := (a, m.returned) :: m.ctxSnap }, by simp [Ev.obs, monEventually], ?_⟩
+    exact ⟨hi', hx', ht', hrt', c_once (by simp) (by simp), c_err, c_lat (by simp), c_inval, c_ret,
+      snapOk_step s s' _ _ _ hi hx hsnap hs (Or.inr ⟨a, c, cl, m.returned, rfl, rfl, hret⟩),
+      c_cfg (by simp), ctxVal_inv s s' _ hcc a c cl hs,
+      ctxOk_step s s' _ _ _ hcc hs (fun _ h _ => List.mem_cons_of_mem _ h)
+        (by intro a' c' cl' he; cases he; exact List.mem_cons_self),
+      c_add (by simp), c_hook (by simp), c_conv⟩
+  | retSetCtx a u =>
+    refine ⟨{ m with ctxCalls := m.ctxCalls.erase a
+                     inval := if u == some true then snapOf m.ctxSnap a ++ m.inval else m.inval },
+      by simp [Ev.obs, monEventually, snapOf], ?_⟩
+    have hinv' : InvalOk s' (if u == some true then snapOf m.ctxSnap a ++ m.inval else m.inval) := by
+      split
+      · rename_i hu
+        have hu' : u = some true := by simpa using hu
+        subst hu'
+        have hs0 := hs
+        simp only [step] at hs0; split at hs0 <;> try simp at hs0
+        rename_i c0 cl0 u0 ha
+        obtain ⟨⟨_, hupd⟩, _⟩ := hs0
+        have hcl : cl0 = false ∧ u0 = true := by
+          cases cl0 <;> simp at hupd
+          exact ⟨rfl, hupd⟩
+        obtain ⟨rfl, rfl⟩ := hcl
+        have hold : InvalOk s (snapOf m.ctxSnap a ++ m.inval) := by
+          intro k hk
+          simp only [List.mem_append] at hk
+          rcases hk with hk | hk
+          · exact (hsnap a c0 false .done true ha k hk).2 (by simp) rfl k (by simp)
+          · exact hinval k hk
+        exact invalOk_step s s' _ _ _ hi hx hold hs (fun _ h => Or.inl h)
+      · exact c_inval
+    exact ⟨hi', hx', ht', hrt', c_once (by simp) (by simp), c_err, c_lat (by simp), hinv', c_ret,
+      c_snap (by simp), c_cfg (by simp), c_ctx (by simp) (by simp),
+      ctxOk_step s s' _ _ _ hcc hs (by
+        intro a' h hne
+        have : a' ≠ a := by intro e; subst e; exact hne u rfl
+        exact (List.mem_erase_of_ne this).mpr h) (by intro a' c' cl' he; cases he),
+      c_add (by simp), c_hook (by simp), c_conv⟩
+  | invHook a =>
+    refine ⟨{ m with hooks := true }, by simp [Ev.obs, monEventually], ?_⟩
+    exact ⟨hi', hx', ht', hrt', c_once (by simp) (by simp), c_err, c_lat (by simp), c_inval, c_ret,
+      c_snap (by simp), c_cfg (by simp), c_ctx (by simp) (by simp), c_cc (by simp), c_add (by simp),
+      hookOk_step s s' _ _ _ hhook hs (fun _ => rfl) (fun _ _ => rfl), c_conv⟩
+  | quiesce B =>
+    have hs0 := hs
+    simp only [step] at hs0; split at hs0 <;> simp at hs0
+    rename_i hq
+    exact ⟨m, by simpa [Ev.obs] using ev_quiesce_ok s m B hR0 hq.1,
+      same (by simp) (by simp) (by simp) (by simp) (by simp) (by simp)⟩
+  | invAddRef a kd => exact ⟨m, rfl, same (by simp) (by simp) (by simp) (by simp) (by simp) (by simp)⟩
+  | addRefCS a => exact same (by simp) (by simp) (by simp) (by simp) (by simp) (by simp)
+  | relSwap b => exact same (by simp) (by simp) (by simp) (by simp) (by simp) (by simp)
+  | relCS b => exact same (by simp) (by simp) (by simp) (by simp) (by simp) (by simp)
+  | retRelease b => exact ⟨m, rfl, same (by simp) (by simp) (by simp) (by simp) (by simp) (by simp)⟩
+  | setCtxCS a => exact same (by simp) (by simp) (by simp) (by simp) (by simp) (by simp)
+  | envCancelCtx c => exact ⟨m, rfl, same (by simp) (by simp) (by simp) (by simp) (by simp) (by simp)⟩
+  | relRun r => exact same (by simp) (by simp) (by simp) (by simp) (by simp) (by simp)
+  | enter i k => exact ⟨m, rfl, same (by simp) (by simp) (by simp) (by simp) (by simp) (by simp)⟩
+  | giveUp i => exact same (by simp) (by simp) (by simp) (by simp) (by simp) (by simp)
+  | drained i => exact same (by simp) (by simp) (by simp) (by simp) (by simp) (by simp)
+  | store i => exact same (by simp) (by simp) (by simp) (by simp) (by simp) (by simp)
+  | done i => exact same (by simp) (by simp) (by simp) (by simp) (by simp) (by simp)
+  | selfRelSwap a => exact same (by simp) (by simp) (by simp) (by simp) (by simp) (by simp)
+  | selfRelCS a => exact same (by simp) (by simp) (by simp) (by simp) (by simp) (by simp)
+  | probe v er => exact ⟨m, rfl, same (by simp) (by simp) (by simp) (by simp) (by simp) (by simp)⟩
+
+/-- **C08 (observable form, `monEventually`).** Every observable trace of the model is accepted by
+`monEventually`: at every quiescence point each release function that was returned and not yet called
+belongs to the latest resolver result, that result was not invalidated (`released()` called, or a
+`SetContext` invoked after it returned reported a change), it is kept only while a reference is held
+or (keep-unreferenced and no error), and the context is set. -/
+theorem rel_eventually_obs (es : List Ev) (s : St) (h : model.run model.init es = some s) :
+    monEventually.accepts (es.filterMap model.obs) = true :=
+  monitor_accepts_of_simulation model monEventually RelEv
+    ⟨init_inv, idx_init, thinv_nil, relTh_nil,
+      ⟨[], ⟨init_inv, idx_init, by intro i k ⟨b, hb, _⟩; simp [model] at hb,
+        by intro i; simp [model, relItems, released, b2n], List.nodup_nil,
+        by
+          intro k
+          constructor
+          · intro hk; cases hk
+          · intro ⟨i, c, v, e, hc, _⟩; simp [model] at hc⟩,
+        by intro p hp; simp [monEventually] at hp⟩,
+      by intro k er hp; simp [monEventually] at hp,
+      ⟨by intro i c hc; simp [model] at hc, by intro i c hc; simp [model] at hc⟩,
+      by intro k hk; simp [monEventually] at hk,
+      by intro k hk; simp [monEventually] at hk,
+      by intro a c cl pc u ha; simp [model] at ha,
+      by intro hc; simp [model] at hc,
+      by intro c hc; simp [monEventually] at hc,
+      by intro a c cl pc u ha; simp [model] at ha,
+      by intro r k l f sf t hr; simp [model] at hr,
+      by intro r pc l f sf t hr; simp [model] at hr,
+      by intro r hr; simp [monEventually] at hr⟩
+    (fun s e s' ms hR hs => by
+      have h := ev_sim_step s e s' ms hR hs
+      cases e with
+      | cb it =>
+        cases it with
+        | refcb r vis res v er => cases vis <;> exact h
+        | rel i k seen => exact h
+      | _ => exact h) es s h
+
+/-- **C08 (observable form, whole monitor).** Every observable trace of the model is accepted by `monC08`,
+the conjunction of the four clause monitors that `./check C08` evaluates on implementation histories. -/
+theorem c08_obs (es : List Ev) (s : St) (h : model.run model.init es = some s) :
+    monC08.accepts (es.filterMap model.obs) = true := by
+  simp only [ObsMonitor.rcBoth_accepts, rel_once_obs es s h, rel_hidden_obs es s h, rel_held_obs es s h,
+    rel_eventually_obs es s h, Bool.and_self]
 
 end UtilModel.RefCount
